@@ -254,6 +254,21 @@ func c04Mutants(s *gen.Shape, i int, r *prng.R) []c04Mut {
 		m.Ins[i].PrevScript = append(m.Ins[i].PrevScript, 0x61)
 		return i
 	})
+	// FORKID signatures commit to the whole spent script, a push of the very
+	// signature included (signature pushes are only taken out of the script code
+	// by the legacy algorithm)
+	if u := s.Ins[i].Unlock; len(u) > 2 && int(u[0]) >= 9 && int(u[0]) <= 75 && len(u) > int(u[0]) && u[u[0]]&0x40 != 0 {
+		sigPush := append([]byte{}, u[:1+int(u[0])]...)
+		add("spent-script", "-", "spent script: a push of the input's own signature added", func(m *gen.Shape) int {
+			q := m.Ins[i].PrevScript
+			if len(q) > 40 && q[len(q)-1] == 0x68 { // inside the unexecuted envelope
+				m.Ins[i].PrevScript = append(append(append([]byte{}, q[:len(q)-1]...), sigPush...), 0x68)
+			} else {
+				m.Ins[i].PrevScript = append(append(append([]byte{}, q...), sigPush...), 0x75)
+			}
+			return i
+		})
+	}
 	if ps := s.Ins[i].PrevScript; len(ps) > 40 && ps[len(ps)-1] == 0x68 {
 		add("spent-script", "-", "spent script: inscription payload bit", func(m *gen.Shape) int {
 			q := m.Ins[i].PrevScript
@@ -568,6 +583,104 @@ func c04Judge(c *mon.Ctx, in *c04Case) {
 	}
 }
 
+// ---- inputs taken from a previous transaction ---------------------------------
+
+type c04FromPrev struct {
+	Seed uint64 `json:"seed"`
+}
+
+func c04JudgeFromPrev(c *mon.Ctx, in *c04FromPrev) {
+	c.Eval(1)
+	r := prng.New(in.Seed, "C04-from-prev", 0)
+	key := r.Bytes(32)
+	key[0] &= 0x7f
+	key[31] |= 1
+	priv, pub := bec.PrivKeyFromBytes(bec.S256(), key)
+	pkh := crypto.Hash160(pub.SerialiseCompressed())
+	prev := &bt.Tx{Version: 1}
+	pin := &bt.Input{SequenceNumber: 0xffffffff, UnlockingScript: bscript.NewFromBytes([]byte{0x51})}
+	_ = pin.PreviousTxIDAdd(r.Bytes(32))
+	prev.Inputs = []*bt.Input{pin}
+	mine := 0
+	for k, n := 0, 2+r.Intn(4); k < n; k++ {
+		var sc []byte
+		switch r.Intn(4) {
+		case 0:
+			sc = gen.P2PKH(pkh)
+			mine++
+		case 1:
+			sc = c04Inscription(pkh, r)
+			mine++
+		case 2:
+			sc = gen.P2PKH(r.Bytes(20))
+		default:
+			sc = c04Inscription(r.Bytes(20), r)
+		}
+		prev.Outputs = append(prev.Outputs, &bt.Output{Satoshis: uint64(1000 + r.Intn(100000)), LockingScript: bscript.NewFromBytes(sc)})
+	}
+	if mine == 0 {
+		prev.Outputs = append(prev.Outputs, &bt.Output{Satoshis: 5000, LockingScript: bscript.NewFromBytes(c04Inscription(pkh, r))})
+		mine = 1
+	}
+	via := []string{"AddP2PKHInputsFromTx", "From", "FromUTXOs"}[r.Intn(3)]
+	tx := bt.NewTx()
+	var err error
+	ok := c.Try("bt.(*Tx)."+via, func() {
+		switch via {
+		case "AddP2PKHInputsFromTx":
+			err = tx.AddP2PKHInputsFromTx(prev, pub.SerialiseCompressed())
+		default:
+			for vout, o := range prev.Outputs {
+				h, e := o.LockingScript.PublicKeyHash()
+				if e != nil || !bytes.Equal(h, pkh) {
+					continue
+				}
+				if via == "From" {
+					err = tx.From(prev.TxID(), uint32(vout), o.LockingScript.String(), o.Satoshis)
+				} else {
+					err = tx.FromUTXOs(&bt.UTXO{TxID: prev.TxIDBytes(), Vout: uint32(vout), Satoshis: o.Satoshis, LockingScript: o.LockingScript})
+				}
+				if err != nil {
+					return
+				}
+			}
+		}
+	})
+	if !ok {
+		return
+	}
+	if err != nil || len(tx.Inputs) != mine {
+		c.Violationf("C04:inputs-from-previous-tx:"+via, "%s returned %v and added %d inputs; the previous transaction has %d outputs to the key; prev tx %x", via, err, len(tx.Inputs), mine, prev.Bytes())
+		return
+	}
+	_ = tx.PayTo(bscript.NewFromBytes(gen.P2PKH(r.Bytes(20))), 700)
+	if !c.Try("bt.(*Tx).FillAllInputs", func() { err = tx.FillAllInputs(context.Background(), &unlocker.Getter{PrivateKey: priv}) }) {
+		return
+	}
+	if err != nil {
+		c.Violationf("C04:sign-error:from-previous-tx:"+via, "FillAllInputs failed on inputs taken from a previous transaction by %s: %v", via, err)
+		return
+	}
+	raw, perr := bt.NewTxFromBytes(tx.Bytes())
+	if perr != nil {
+		c.Fault("signed tx does not parse: " + perr.Error())
+		return
+	}
+	for j, inp := range raw.Inputs {
+		o := prev.Outputs[inp.PreviousTxOutIndex]
+		accepted, code, ok := c04Verify(c, raw, j, *o.LockingScript, o.Satoshis, true)
+		if !ok {
+			return
+		}
+		if !accepted {
+			c.Violationf("C04:fresh-rejected:from-previous-tx:"+via, "input %d (spending output %d of the previous transaction, script %x) signed by FillAllInputs after %s is rejected by the interpreter (%s); tx %x", j, inp.PreviousTxOutIndex, []byte(*o.LockingScript), via, code, tx.Bytes())
+			return
+		}
+	}
+	c.Count("from-previous-tx:verified:" + via)
+	c.Distinct(prng.HashBytes(tx.Bytes()))
+}
+
 // ---- workload ---------------------------------------------------------------
 
 // c04BigPayload, when non-zero, is the payload size of the next inscription
@@ -662,6 +775,7 @@ func init() {
 			"the interpreter's error code on rejection is recorded, not judged"},
 	}
 	judge := mon.Kind(p, "signed-input", c04Judge)
+	fromPrev := mon.Kind(p, "from-prev", c04JudgeFromPrev)
 	p.Run = func(c *mon.Ctx) {
 		if !shValidateModel(c) {
 			return
@@ -703,6 +817,16 @@ func init() {
 				cs := c04MakeCase(r, 1+int(n%2), 1, 0, t, "FillInput", true)
 				c04BigPayload = 0
 				judge(c, cs)
+			}
+		}
+		c.Phase("inputs-from-previous-tx") // inputs are taken from a previous transaction's outputs by the library (AddP2PKHInputsFromTx / From / FromUTXOs), then signed and verified against those outputs
+		NF := uint64(60)
+		if c.Thorough {
+			NF = 3000
+		}
+		for n := uint64(0); n < NF; n++ {
+			if c.Case(n) {
+				fromPrev(c, &c04FromPrev{Seed: c.Rand(n).Uint64()})
 			}
 		}
 		c.Phase("random-shapes")
